@@ -41,6 +41,21 @@ Record sort_case := { sc_fn : nat; sc_rev : bool; sc_in : list (skey N); sc_out 
 Definition check_sort (c : sort_case) : bool :=
   list_eqb skey_eqb (sort_go (cmp_fn (sc_fn c)) (sc_rev c) (sc_in c)) (sc_out c).
 
+(* the same on entries of an application-defined type whose clock compares the times only *)
+Definition cmp_fn_custom (i : nat) : skey N -> skey N -> cres :=
+  match i with
+  | 0%nat => lww_g N ncmp time_only_cc
+  | 1%nat => fww_g N ncmp time_only_cc
+  | 2%nat => hash_g N ncmp time_only_cc
+  | 3%nat => compare_g N time_only_cc
+  | 4%nat => no_zeroes N (lww_g N ncmp time_only_cc)
+  | 5%nat => no_zeroes N (fww_g N ncmp time_only_cc)
+  | 6%nat => no_zeroes N (hash_g N ncmp time_only_cc)
+  | _ => no_zeroes N (compare_g N time_only_cc)
+  end.
+Definition check_pair_custom (c : pair_case) : bool :=
+  list_eqb cres_eqb (map (fun i => cmp_fn_custom i (pc_a c) (pc_b c)) (seq 0 8)) (pc_obs c).
+
 Fixpoint mismatches {A} (chk : A -> bool) (i : nat) (l : list A) : list nat :=
   match l with
   | [] => []
@@ -49,3 +64,4 @@ Fixpoint mismatches {A} (chk : A -> bool) (i : nat) (l : list A) : list nat :=
 
 Definition mismatches_pairs := mismatches check_pair 0.
 Definition mismatches_sorts := mismatches check_sort 0.
+Definition mismatches_pairs_custom := mismatches check_pair_custom 0.
